@@ -5,6 +5,7 @@ package websocket
 import (
 	"bufio"
 	"net/http"
+	"strings"
 	"time"
 )
 
@@ -562,5 +563,93 @@ func vfH_origin_wiring() {
 		vfAssert(!same, "c13-same-origin-is-upgraded")
 		vfAssert(rw.status == 403 && rw.hijacked == 0, "c13-other-origin-gets-403-without-hijack")
 		vfReach("origin-refused")
+	}
+}
+
+// specOriginHost: the authority's host[:port] of an origin / URL per RFC 3986
+// 3.2 (scheme "://" [userinfo "@"] host [":" port], ended by "/", "?" or "#").
+func specOriginHost(s string) (string, bool) {
+	i := strings.Index(s, "://")
+	if i <= 0 {
+		return "", false
+	}
+	rest := s[i+3:]
+	end := len(rest)
+	for j := 0; j < len(rest); j++ {
+		if rest[j] == '/' || rest[j] == '?' || rest[j] == '#' {
+			end = j
+			break
+		}
+	}
+	auth := rest[:end]
+	if k := strings.LastIndex(auth, "@"); k >= 0 {
+		auth = auth[k+1:]
+	}
+	return auth, true
+}
+
+// vfH_origin_urls (C13, with the REAL net/url.Parse executed from its SSA):
+// origins assembled from scheme, optional userinfo, host, optional port and
+// path around the request Host - case variants, added / removed labels,
+// userinfo tricks, different or missing ports, IP literals - are upgraded iff
+// the reference authority host equals Host under ASCII folding.
+func vfH_origin_urls() {
+	vfInit()
+	vfClockMaxStep(int64(time.Second))
+	vfUseReal("net/url.Parse")
+	vfUseRealPkg("net/url")
+	host := vfPick([]string{"example.com", "example.com:8080", "[2001:db8::1]:8080", "192.0.2.7"})
+	scheme := vfPick([]string{"https", "http"})
+	userinfo := vfPick([]string{"", "user@", "example.com@", "example.com:8080@", "user:pw@"})
+	hostNoPort, port := host, ""
+	if i := strings.LastIndex(host, ":"); i >= 0 && i > strings.LastIndex(host, "]") {
+		hostNoPort, port = host[:i], host[i:]
+	}
+	var ohost string
+	switch vfChoose(9) {
+	case 0:
+		ohost = vfCaseVariant(hostNoPort) + port
+	case 1:
+		ohost = hostNoPort // port removed (or none to begin with)
+	case 2:
+		ohost = hostNoPort + ":81"
+	case 3:
+		ohost = "evil.com"
+	case 4:
+		ohost = hostNoPort + ".evil.com" + port
+	case 5:
+		ohost = "evil-" + hostNoPort + port
+	case 6:
+		ohost = hostNoPort + port + ".evil.com"
+	case 7:
+		ohost = "[::1]" + port
+	case 8:
+		ohost = hostNoPort + ":" // empty port
+	}
+	tail := vfPick([]string{"", "/", "/a?b=c", "?x", "#f"})
+	origin := scheme + "://" + userinfo + ohost + tail
+	hdr := http.Header{"Connection": {"Upgrade"}, "Upgrade": {"websocket"}, "Sec-Websocket-Version": {"13"},
+		"Sec-Websocket-Key": {"dGhlIHNhbXBsZSBub25jZQ=="}, "Origin": {origin}}
+	r := &http.Request{Method: "GET", Host: host, Header: hdr}
+	tc := vfNewConn(nil)
+	rw := &vfRW{conn: tc, br: bufio.NewReaderSize(tc, 4096), bw: bufio.NewWriterSize(tc, 4096)}
+	u := &Upgrader{}
+	c, err := u.Upgrade(rw, r, nil)
+	want, okRef := specOriginHost(origin)
+	same := okRef && vfFoldEqT(want, host)
+	if c != nil {
+		vfAssert(same, "c13-only-same-origin-is-upgraded")
+		vfReach("origin-url-accepted")
+	} else {
+		vfAssert(err != nil, "c12-conn-xor-error")
+		// an origin the standard parser refuses outright (e.g. a port that is not
+		// numeric) may be rejected although the reference calls it same-origin:
+		// refusing is always within the property
+		vfAssert(rw.status == 403 && rw.hijacked == 0, "c13-other-origin-gets-403-without-hijack")
+		if same {
+			vfReach("origin-url-refused-although-same")
+		} else {
+			vfReach("origin-url-refused")
+		}
 	}
 }
